@@ -150,10 +150,13 @@ def run(tier, seed, replay=None):
                "a/b/../../../outside/Esc.qml")
     grid = [(sh, od, None) for sh in SHAPES if sh != "escape" for od in (None, "out", "build/gen")]
     grid += [("escape", od, e) for e in ESCAPES for od in ("out", "build/gen")]
-    n_shapes = len(grid) + (6 if tier == "quick" else 150)
-    stems = ["Main", "settingsDialog", "X", "Form_2", "MyäPp", "MAINWINDOW", "a.b"]
+    n_shapes = len(grid) + (12 if tier == "quick" else 150)
+    stems = ["Main", "settingsDialog", "X", "Form_2", "MyäPp", "MAINWINDOW", "a.b", "Login.ui", "Wizard.Intro"]
+    stem_off = rng.randrange(len(stems))
     for k in range(n_shapes):
-        stem = rng.choice(stems)
+        # every stem meets several shapes in every run (the grid has more entries than there are stems and their number is no
+        # multiple of the number of stems); the rest is drawn at random
+        stem = stems[(k * 4 + stem_off) % len(stems)] if k < len(grid) else rng.choice(stems)
         sub = rng.choice(("", "ui", "a/b", "Sub Dir"))
         src_rel = os.path.join(sub, stem + ".qml")
         if k < len(grid):
@@ -181,8 +184,10 @@ def run(tier, seed, replay=None):
             if sources[0] == src_rel:
                 shape = "plain"
         elif shape == "two-sources":
-            files[os.path.join(sub, "Other.qml")] = STATIC_QML % ("o", "y")
-            sources = [src_rel, os.path.join(sub, "Other.qml")]
+            # the second source shares everything up to the first dot with the first one, if there is a dot
+            other = (stem.split(".")[0] + ".Other.qml") if "." in stem else "Other.qml"
+            files[os.path.join(sub, other)] = STATIC_QML % ("o", "y")
+            sources = [src_rel, os.path.join(sub, other)]
         w = make_project(base, "s%d" % k, files)
         if link_target:
             os.makedirs(os.path.dirname(os.path.join(w, src_rel)), exist_ok=True)
